@@ -211,6 +211,7 @@ const vrfGoodCid = "QmUaFyXjZUNaUwYF8rBtbJc7fEJ46aJXvgV8z2HHs6jvmJ"
 // symbolic query values for the pin options this tier covers; empty = not given
 type vrfOpts struct {
 	name, mode, rmin, rmax, shard, update string
+	rpl     string // the "replication" alias: sets both factors
 	meta    string // value of the metadata key "team"
 	allocs  int    // 0 none, 1 one peer, 2 two peers
 	origins int    // 0 none, 1 one valid origin, 2 an invalid one
@@ -226,6 +227,8 @@ func vrfSymbolicQuery(q url.Values) vrfOpts {
 		o.meta = vrf_nondet_string("q_meta_team")
 		o.allocs = vrf_choice("q_user_allocations", 3)
 		o.origins = vrf_choice("q_origins", 3)
+		o.rpl = vrf_nondet_string("q_replication")
+		q.Set("replication", o.rpl)
 		q.Set("meta-team", o.meta)
 		q.Set("user-allocations", vrfAllocStrs[o.allocs])
 		q.Set("origins", vrfOriginStrs[o.origins])
@@ -251,7 +254,7 @@ func vrfSymbolicQuery(q url.Values) vrfOpts {
 // optsInvalid: some option carries a value its parser rejects
 func (o vrfOpts) invalid() bool {
 	return vrf_or(vrf_or(vrf_or(vrf_and(o.rmin != "", !vrfAtoiOK(o.rmin)), vrf_and(o.rmax != "", !vrfAtoiOK(o.rmax))),
-		vrf_or(vrf_and(o.shard != "", !vrfParseUintOK(o.shard)), vrf_and(o.update != "", !vrfCidOK(o.update)))), o.origins == 2)
+		vrf_or(vrf_and(o.shard != "", !vrfParseUintOK(o.shard)), vrf_and(o.update != "", !vrfCidOK(o.update)))), vrf_or(o.origins == 2, vrf_and(o.rpl != "", !vrfAtoiOK(o.rpl))))
 }
 
 func (o vrfOpts) check(po *types.PinOptions, label string) {
@@ -263,7 +266,8 @@ func (o vrfOpts) check(po *types.PinOptions, label string) {
 	vrf_assert(po.Mode == wantMode, label+".mode")
 	vrf_assert(vrf_or(o.rmin == "", po.ReplicationFactorMin == vrfAtoi(o.rmin)), label+".rmin")
 	vrf_assert(vrf_or(o.rmax == "", po.ReplicationFactorMax == vrfAtoi(o.rmax)), label+".rmax")
-	vrf_assert(vrf_or(o.rmin != "", po.ReplicationFactorMin == 0), label+".rmin-unset")
+	vrf_assert(vrf_or(vrf_or(o.rmin != "", o.rpl != ""), po.ReplicationFactorMin == 0), label+".rmin-unset")
+	vrf_assert(vrf_or(o.rpl == "", vrf_and(po.ReplicationFactorMin == vrfAtoi(o.rpl), po.ReplicationFactorMax == vrfAtoi(o.rpl))), label+".replication-alias")
 	vrf_assert(vrf_or(o.shard == "", po.ShardSize == vrfParseUint(o.shard)), label+".shard-size")
 	vrf_assert(vrf_or(o.update != "", po.PinUpdate == cid.Undef), label+".update-unset")
 	if vrf_param("more_options") == 1 {
